@@ -20,7 +20,9 @@ Record rjob := RJobRec {
   r_removed : bool;
   r_gok : bool;            (* the execution graph of the job can be built (a function of the job's snapshot) *)
   r_creq : bool;           (* a cancel was requested while the job was running *)
-  r_live : bool }.         (* the job's scheduler goroutine exists *)
+  r_live : bool;           (* the job's scheduler goroutine exists *)
+  r_snap : nat * vkind * nat * tasks }.   (* what the job took from its pipeline definition and request when it was accepted:
+                                              pipeline env, variables, user, task names/definitions *)
 
 Record rstate := RState {
   rs_defs : defs;
@@ -60,9 +62,9 @@ Definition r_find (s : rstate) (id : nat) : option rjob :=
   match rs_jobs s !! id with Some j => if r_removed j then None else Some j | None => None end.
 
 Definition r_started (now : Z) (j : rjob) : rjob :=
-  RJobRec (r_pipe j) (r_created j) (Some now) (r_completed j) (r_canceled j) (r_delay j) (r_timer j) (r_removed j) (r_gok j) (r_creq j) true.
+  RJobRec (r_pipe j) (r_created j) (Some now) (r_completed j) (r_canceled j) (r_delay j) (r_timer j) (r_removed j) (r_gok j) (r_creq j) true (r_snap j).
 Definition r_failed (j : rjob) : rjob :=
-  RJobRec (r_pipe j) (r_created j) (r_start j) (r_completed j) true (r_delay j) (r_timer j) (r_removed j) (r_gok j) (r_creq j) (r_live j).
+  RJobRec (r_pipe j) (r_created j) (r_start j) (r_completed j) true (r_delay j) (r_timer j) (r_removed j) (r_gok j) (r_creq j) (r_live j) (r_snap j).
 
 Definition r_try_start (s : rstate) (id : nat) : rstate * bool :=
   match r_find s id with
@@ -94,13 +96,13 @@ Definition r_dequeue (s : rstate) (p : name) : rstate := r_dequeue_loop (wl_get 
 Definition r_start_job (s : rstate) (id : nat) (p : name) : rstate :=
   let '(s', failed) := r_try_start s id in if failed then r_dequeue s' p else s'.
 
-Definition r_new_job (s : rstate) (p : name) (d : pdef) (gok : bool) : rjob :=
-  RJobRec p (rs_now s) None false false (pd_delay d) (Nat.ltb 0 (pd_delay d)) false gok false false.
+Definition r_new_job (s : rstate) (p : name) (d : pdef) (gok : bool) (sn : nat * vkind * nat * tasks) : rjob :=
+  RJobRec p (rs_now s) None false false (pd_delay d) (Nat.ltb 0 (pd_delay d)) false gok false false sn.
 
 Definition r_cancel_notimer (j : rjob) : rjob :=
-  RJobRec (r_pipe j) (r_created j) (r_start j) (r_completed j) true (r_delay j) false (r_removed j) (r_gok j) (r_creq j) (r_live j).
+  RJobRec (r_pipe j) (r_created j) (r_start j) (r_completed j) true (r_delay j) false (r_removed j) (r_gok j) (r_creq j) (r_live j) (r_snap j).
 
-Definition r_schedule (s : rstate) (p : name) (gok : bool) : rstate * result :=
+Definition r_schedule (s : rstate) (p : name) (gok : bool) (sn : nat * vkind * nat * tasks) : rstate * result :=
   if rs_shut s then (s, RErrShutdown)
   else match lookup_def (rs_defs s) p with
   | None => (s, RErrUndefined)
@@ -110,7 +112,7 @@ Definition r_schedule (s : rstate) (p : name) (gok : bool) : rstate * result :=
       | AQueueFull => (s, RErrQueueFull)
       | act =>
           let id := length (rs_jobs s) in
-          let s1 := r_set_jobs s (rs_jobs s ++ [r_new_job s p d gok]) in
+          let s1 := r_set_jobs s (rs_jobs s ++ [r_new_job s p d gok sn]) in
           match act with
           | AQueue => (r_set_wait s1 p (wl_get (rs_wait s1) p ++ [id]), RJob id)
           | AReplace =>
@@ -125,7 +127,7 @@ Definition r_schedule (s : rstate) (p : name) (gok : bool) : rstate * result :=
   end.
 
 Definition r_set_creq (j : rjob) : rjob :=
-  RJobRec (r_pipe j) (r_created j) (r_start j) (r_completed j) (r_canceled j) (r_delay j) (r_timer j) (r_removed j) (r_gok j) true (r_live j).
+  RJobRec (r_pipe j) (r_created j) (r_start j) (r_completed j) (r_canceled j) (r_delay j) (r_timer j) (r_removed j) (r_gok j) true (r_live j) (r_snap j).
 
 Definition r_cancel (s : rstate) (id : nat) : rstate * result :=
   match r_find s id with
@@ -144,7 +146,7 @@ Definition r_cancel (s : rstate) (id : nat) : rstate * result :=
   end.
 
 Definition r_clear_timer (j : rjob) : rjob :=
-  RJobRec (r_pipe j) (r_created j) (r_start j) (r_completed j) (r_canceled j) (r_delay j) false (r_removed j) (r_gok j) (r_creq j) (r_live j).
+  RJobRec (r_pipe j) (r_created j) (r_start j) (r_completed j) (r_canceled j) (r_delay j) false (r_removed j) (r_gok j) (r_creq j) (r_live j) (r_snap j).
 
 Definition r_timer_due (s : rstate) (j : rjob) : bool := r_timer j && (r_created j + Z.of_nat (r_delay j) <=? rs_now s).
 
@@ -163,7 +165,7 @@ Definition r_fire (s : rstate) (id : nat) : option rstate :=
 
 Definition r_complete_job (now : Z) (ecanceled : bool) (j : rjob) : rjob :=
   RJobRec (r_pipe j) (r_created j) (r_start j) true (r_canceled j || ecanceled || r_creq j) (r_delay j) (r_timer j) (r_removed j)
-          (r_gok j) (r_creq j) false.
+          (r_gok j) (r_creq j) false (r_snap j).
 
 Definition r_complete (s : rstate) (id : nat) (ecanceled : bool) : option rstate :=
   match rs_jobs s !! id with
@@ -176,7 +178,7 @@ Definition r_complete (s : rstate) (id : nat) (ecanceled : bool) : option rstate
   end.
 
 Inductive revent :=
-  | RvSchedule (p : name) (gok : bool)
+  | RvSchedule (p : name) (gok : bool) (sn : nat * vkind * nat * tasks)
   | RvCancel (id : nat)
   | RvTick (d : nat)
   | RvFire (id : nat)
@@ -185,7 +187,7 @@ Inductive revent :=
 
 Definition rstep (s : rstate) (e : revent) : option (rstate * result) :=
   match e with
-  | RvSchedule p gok => Some (r_schedule s p gok)
+  | RvSchedule p gok sn => Some (r_schedule s p gok sn)
   | RvCancel id => Some (r_cancel s id)
   | RvTick d => Some (RState (rs_defs s) (rs_jobs s) (rs_wait s) (rs_shut s) (rs_now s + Z.of_nat d), RNone)
   | RvFire id => (fun s' => (s', RNone)) <$> r_fire s id
@@ -202,7 +204,8 @@ Inductive rreach : rstate → Prop :=
 (** ** Abstraction of a system state *)
 Definition abs_job (j : job) : rjob :=
   RJobRec (j_pipe j) (j_created j) (j_start j) (j_completed j) (j_canceled j) (j_delay j) (j_timer j) (j_removed j)
-          (graph_ok j) (j_cancel_req j) (match j_sched j with Some _ => true | None => false end).
+          (graph_ok j) (j_cancel_req j) (match j_sched j with Some _ => true | None => false end)
+          (j_env j, j_vars j, j_user j, job_graph j).
 
 Definition abs (s : state) : rstate :=
   RState (st_defs s) (map abs_job (st_jobs s)) (st_wait s) (st_shut s) (st_now s).
